@@ -68,9 +68,6 @@ pub fn convert(map: &mut Beatmap, mods: &GameMods) {
     };
 
     let total_columns = map.cs as i32;
-
-    #[cfg(rosu_pp_verif)]
-    verif_gen::trace_begin(seed, total_columns);
     let mut last_values = PrevValues::default();
 
     // mean=668.7 | median=512
@@ -92,9 +89,6 @@ pub fn convert(map: &mut Beatmap, mods: &GameMods) {
                 );
 
                 let new_pattern = gen.generate();
-
-                #[cfg(rosu_pp_verif)]
-                verif_gen::trace_circle(&gen, &last_values, &new_pattern);
 
                 last_values.stair = gen.stair_type;
                 last_values.time = obj.start_time;
@@ -118,9 +112,6 @@ pub fn convert(map: &mut Beatmap, mods: &GameMods) {
                     &slider.node_sounds,
                 );
 
-                #[cfg(rosu_pp_verif)]
-                verif_gen::trace_slider_begin(&gen);
-
                 let segment_duration = f64::from(gen.segment_duration);
 
                 for i in 0..=slider.repeats as i32 + 1 {
@@ -133,9 +124,6 @@ pub fn convert(map: &mut Beatmap, mods: &GameMods) {
                 }
 
                 for new_pattern in gen.generate() {
-                    #[cfg(rosu_pp_verif)]
-                    verif_gen::trace_slider_pattern(&new_pattern);
-
                     new_hit_objects.extend_from_slice(&new_pattern.hit_objects);
                     last_values.pattern = new_pattern;
                 }
@@ -160,9 +148,6 @@ pub fn convert(map: &mut Beatmap, mods: &GameMods) {
                 compute_density(end_time, &mut density);
 
                 let new_pattern = gen.generate();
-
-                #[cfg(rosu_pp_verif)]
-                verif_gen::trace_spinner(&gen, &new_pattern);
 
                 new_hit_objects.extend(new_pattern.hit_objects);
             }
